@@ -2,6 +2,7 @@ package hclwrite
 
 import (
     "fmt"
+    "math/big"
     "unicode"
     "unicode/utf8"
 
@@ -65,7 +66,7 @@ func appendTokensForValue(val cty.Value, toks Tokens) Tokens {
 
     case val.Type() == cty.Number:
         bf := val.AsBigFloat()
-        srcStr := bf.Text('f', -1)
+        srcStr := numberLiteral(bf)
         toks = append(toks, &Token{
             Type:  hclsyntax.TokenNumberLit,
             Bytes: []byte(srcStr),
@@ -161,6 +162,28 @@ func appendTokensForValue(val cty.Value, toks Tokens) Tokens {
     }
 
     return toks
+}
+
+// numberLiteral returns decimal digits that read back as exactly bf at bf's
+// own precision. This is normally the shortest such spelling; math/big's
+// shortest formatting is one digit short for some exact powers of two (for
+// example float64 2^64 comes out as 18446744073709550000, which is a different
+// float64), so the result is verified and the exact decimal expansion is used
+// where it does not read back.
+func numberLiteral(bf *big.Float) string {
+    s := bf.Text('f', -1)
+    back, _, err := big.ParseFloat(s, 10, bf.Prec(), big.ToNearestEven)
+    if err == nil && back.Cmp(bf) == 0 {
+        return s
+    }
+    if bf.IsInt() {
+        i, _ := bf.Int(nil)
+        return i.String()
+    }
+    // The lowest set bit of the mantissa has weight 2^(exp-minprec), so that
+    // many fractional digits spell the value exactly.
+    fracDigits := int(bf.MinPrec()) - bf.MantExp(nil)
+    return bf.Text('f', fracDigits)
 }
 
 func appendTokensForTraversal(traversal hcl.Traversal, toks Tokens) Tokens {
